@@ -33,7 +33,7 @@ For each change deliver, in {dirs}:
  - a demonstration `demo.cpp` (+ the exact build/run command in `demo.txt`) — a small program that exits 0 on the pristine code and non-zero (printing what went wrong) with the change applied. It may use the library headers directly (include paths: `-I{d}/wt -I{d}/wt/bluetoe -I{d}/wt/bluetoe/link_layer/include -I{d}/wt/bluetoe/utility/include -I{d}/wt/bluetoe/sm/include`; put `#include <iterator>`, `<algorithm>`, `<cstring>` before bluetoe headers, they forget them; g++ -std=c++11) and the repo's own test scaffolding under `tests/test_tools` / `tests/link_layer` / `tests/security_manager` (test_radio, test_sm.hpp, aes.c, uECC.c …; Boost.Test is installed, header-only variant `<boost/test/included/unit_test.hpp>` works) — look at the existing tests for how to instantiate things;
  - `meta.json` — {{"property":"{pid}","summary":"…","needs":"what specific interleaving/sequence/input is needed to manifest","tests_run":"which existing tests you built and ran and their result"}}.
 
-Existing tests: configure once with `cmake -G Ninja -S {d}/wt -B {d}/b -DCMAKE_BUILD_TYPE=RelWithDebInfo -DBLUETOE_BUILD_UNIT_TESTS=ON -DCMAKE_CXX_FLAGS=-Wno-error`, build with `cmake --build {d}/b -j6 -- -k0` (six test targets — service_tests, characteristic_value_tests, advertising_tests, gap_service_tests, attribute_handle_tests, battery_tests — do not compile even on pristine code; ignore them), run `ctest --test-dir {d}/b -j6`; the other 70 tests must pass with your change. The machine is shared: use at most -j6. A full build takes ~10 minutes; build the full suite once per change (ninja only rebuilds what depends on the headers you touched). Verify yourself: demo passes on pristine and fails with the patch; the tests pass with the patch. Leave the worktree pristine at the end (`git -C {d}/wt checkout -- .`) and delete `{d}/b` when done. Final answer: a short summary of the changes (3 lines each).
+Existing tests: configure once with `cmake -G Ninja -S {d}/wt -B {d}/b -DCMAKE_BUILD_TYPE=RelWithDebInfo -DBLUETOE_BUILD_UNIT_TESTS=ON -DCMAKE_CXX_FLAGS=-Wno-error`. The machine is shared with many other jobs, so do NOT build the whole suite: build only the test targets whose sources include the headers you touched (find them with grep in {d}/wt/tests; typically 3-15 targets) with `cmake --build {d}/b -j4 --target <names>` (a load scheduler may pause ninja for a while; just wait), run those test binaries, and list them in meta.json; the full suite is run centrally afterwards, so think hard about which existing tests could notice your change and avoid changes they would catch. (Six test targets - service_tests, characteristic_value_tests, advertising_tests, gap_service_tests, attribute_handle_tests, battery_tests - do not compile even on pristine code; ignore them.) Verify yourself: demo passes on pristine and fails with the patch; the tests pass with the patch. Leave the worktree pristine at the end (`git -C {d}/wt checkout -- .`) and delete `{d}/b` when done. Final answer: a short summary of the changes (3 lines each).
 """
 open(d + "/PROMPT.md", "w").write(prompt)
 print(d + "/PROMPT.md")
